@@ -103,7 +103,8 @@ struct DynamicSubject : Subject {
     uint64_t exec(uint64_t s) override {
         K k = keys[s % keys.size()];
         if ((s >> 20) % 3 == 0 && !is_reserved(K(k + 1))) k = K(k + 1); // never the reserved maximum
-        switch ((s >> 32) % 6) {
+        switch ((s >> 32) % 7) {
+            case 6: return 17 + d->size() * 2 + (d->empty() ? 1 : 0); // const observers, first called by whoever comes first
             case 5: { // a private copy of the shared, already advanced iterator, walked a few steps and dropped
                 DynIt it(*shared_it);
                 uint64_t h = 13;
